@@ -102,6 +102,41 @@ theorem runFuel_spec (L : Laws sc Inv) (e : Bytes) :
       · intro f h1; cases h1
     | fault f => exact absurd hs (L.no_fault s f hi)
 
+/-- induction along a run: a property kept by every advancing step holds in the state
+    in which the run stops, and a finished run finished from such a state -/
+theorem runFuel_induct (L : Laws sc Inv) (P : σ → Prop)
+    (hP : ∀ s s', Inv s → P s → sc.step s = .advance s' → P s') :
+    ∀ (n : Nat) (s : σ), Inv s → P s → sc.measure s < n →
+      (∀ s₁, sc.runFuel n s = .more s₁ → Inv s₁ ∧ P s₁) ∧
+      (∀ r, sc.runFuel n s = .done r → ∃ s₁, Inv s₁ ∧ P s₁ ∧ sc.step s₁ = .done r) := by
+  intro n
+  induction n with
+  | zero => intro s _ _ h; omega
+  | succ n ih =>
+    intro s hi hp hm
+    simp only [runFuel]
+    cases hs : sc.step s with
+    | advance s' =>
+      have hd := L.decr s s' hi hs
+      exact ih s' (L.inv_step s s' hi hs) (hP s s' hi hp hs) (by omega)
+    | done r =>
+      dsimp only
+      refine ⟨?_, ?_⟩
+      · intro s₁ h1; cases h1
+      · intro r' h1; cases h1; exact ⟨s, hi, hp, hs⟩
+    | needMore =>
+      dsimp only
+      refine ⟨?_, ?_⟩
+      · intro s₁ h1; cases h1; exact ⟨hi, hp⟩
+      · intro r h1; cases h1
+    | fault f => exact absurd hs (L.no_fault s f hi)
+
+theorem run_induct (L : Laws sc Inv) (P : σ → Prop)
+    (hP : ∀ s s', Inv s → P s → sc.step s = .advance s' → P s') (s : σ) (hi : Inv s) (hp : P s) :
+    (∀ s₁, sc.run s = .more s₁ → Inv s₁ ∧ P s₁) ∧
+    (∀ r, sc.run s = .done r → ∃ s₁, Inv s₁ ∧ P s₁ ∧ sc.step s₁ = .done r) :=
+  runFuel_induct L P hP (sc.measure s + 1) s hi hp (by omega)
+
 /-- a run never faults -/
 theorem run_no_fault (L : Laws sc Inv) (s : σ) (hi : Inv s) (f : Fault) : sc.run s ≠ .fault f :=
   (runFuel_spec L #[] (sc.measure s + 1) s hi (by omega)).2.2 f
